@@ -5,11 +5,12 @@
 # 3. applies the change to /repo, runs ./check <PID> (quick sized), reverts /repo straight afterwards
 set -u
 pid="$1"; i="$2"; shift 2
-wt="/tmp/seed-$pid"; dst="/verif/seeded/$pid-$i"
+# ROUND=2: the change comes from /tmp/seed2-<PID>/change<i>.diff and is stored as seeded/<PID>-<i+2>
+if [ "${ROUND:-1}" = "2" ]; then wt="/tmp/seed2-$pid"; j=$((i+2)); else wt="/tmp/seed-$pid"; j="$i"; fi
+dst="/verif/seeded/$pid-$j"
 mkdir -p "$dst"
 cp "$wt/change$i.diff" "$dst/patch.diff" || exit 3
 cp "$wt/demo$i.py" "$dst/demo.py"; cp "$wt/notes$i.md" "$dst/notes.md" 2>/dev/null
-sed -i "s#/tmp/seed-$pid#/tmp/seed-$pid#g" "$dst/demo.py"
 cd "$wt" || exit 3
 git checkout -q -- csvpath
 /venv/bin/python "demo$i.py" > "$dst/demo_without.log" 2>&1; rc0=$?
@@ -24,4 +25,4 @@ git -C /repo apply "$dst/patch.diff" || { echo "APPLY-TO-REPO-FAILED"; exit 3; }
 ./check "$pid" --no-evidence "$@" > "$dst/check.log" 2>&1; rcc=$?
 git -C /repo checkout -- .
 grep -E "^VIOLATION|HARNESS-ERROR" "$dst/check.log" | cut -c1-200 | head -6
-echo "SEED $pid-$i check exit=$rcc demo_without=$rc0 demo_with=$rc1"
+echo "SEED $pid-$j check exit=$rcc demo_without=$rc0 demo_with=$rc1"
